@@ -506,6 +506,7 @@ func ruleC17(r *Report) {
 		return cs != nil && strings.Contains(cs.Obj().Name(), "TrackedRequest")
 	})
 	checkTracker(r, p, "C17.tracker")
+	checkStopTracking(r, p, "C17.tracker")
 	checkRedirect(r, p, "C17.redirect", "C17.order")
 	checkCookieFlags(r, p, "C17.cookie-flags")
 	checkLifetime(r, p, "C17.lifetime")
@@ -933,5 +934,40 @@ func checkLifetime(r *Report, p *Prog, rule string) {
 		r.Check(ok, rule, cons, p.InstrPos(lf["ExpiresAt"][0]), tt.String(), "expiry is "+tt.String()+" from "+strings.Join(src, ","))
 	} else {
 		r.Bad(rule, cons, p.InstrPos(lf["ExpiresAt"][0]), "ExpiresAt is not a NumericDate of an instant")
+	}
+}
+
+// checkStopTracking: completing a flow clears exactly the tracking cookie named by the index it was
+// given — every cookie written by StopTrackingRequest is the one looked up as prefix + index.
+func checkStopTracking(r *Report, p *Prog, rule string) {
+	fn := p.MustFunc("samlsp", "CookieRequestTracker", "StopTrackingRequest")
+	a := NewAnalysis(p)
+	fc := a.Ctx(fn)
+	r.Fn(p.FnName(fn))
+	n := 0
+	for _, b := range fn.Blocks {
+		for _, in := range b.Instrs {
+			c, ok := in.(*ssa.Call)
+			if !ok || !calleeIs(c, "net/http.SetCookie") {
+				continue
+			}
+			n++
+			ck := c.Call.Args[1]
+			ap := fc.AP(ck)
+			cons := p.FnName(fn) + ": only the cookie of the completed flow is cleared"
+			ok2 := false
+			if ex, okx := ck.(*ssa.Extract); okx && ex.Index == 0 {
+				if cc, okc := ex.Tuple.(*ssa.Call); okc && calleeIs(cc, "(*net/http.Request).Cookie") {
+					name := fc.AP(cc.Call.Args[1])
+					if strings.Contains(name, ".NamePrefix+p:") {
+						ok2 = true
+					}
+				}
+			}
+			r.Check(ok2, rule, cons, p.InstrPos(in), "cookie looked up as prefix + index parameter", "a cookie other than the one named by the given index is rewritten: "+ap+" (other pending flows lose their tracking cookie)")
+		}
+	}
+	if n == 0 {
+		r.Bad(rule, p.FnName(fn)+": cookie cleared", p.Pos(fn.Pos()), "StopTrackingRequest does not clear any cookie")
 	}
 }
